@@ -19,7 +19,7 @@ import re
 import subprocess
 import time
 
-from vlib import common, srcgen
+from vlib import common, srcgen, ringwrap, bcgen
 from vlib.common import VERIF, LEAN, REPO, HARNESS
 
 AREA = "emit"
@@ -102,6 +102,10 @@ def gen_consts(ctx, exe):
     ctx.oblige("translator: OpcodeInfo[] has one row per opcode below OP_PREVIOUS, in enum order (names agree with the binary)",
                len(rows) == int(f["opPrevious"]) == len(ops) and [o[0] for o in ops] == rows,
                "%d rows, %d opcodes" % (len(rows), int(f["opPrevious"])))
+    hsrc = open(os.path.join(REPO, "src", "Script", "Compiler.h")).read()
+    mw = re.search(r"\bint(\d+)_t\s+m_iVarStackOffset\s*;", hsrc)
+    ctx.oblige("translator: declared width of m_iVarStackOffset in Compiler.h == sizeof in the built binary (%s bits)" % f["stackBits"],
+               bool(mw) and mw.group(1) == f["stackBits"], mw.group(0) if mw else "declaration not found")
     ctx.oblige("translator: table bounds of Compiler.h as compiled == as written", all(int(f[k]) == v for k, v in sc.items()), str(sc))
     lens = [int(o[1]) for o in ops]
     stack = [int(o[2]) for o in ops]
@@ -120,6 +124,8 @@ def gen_consts(ctx, exe):
     L.append("/-- `std::numeric_limits<op_parmNum_t>::max()`, `…<op_arrayParmNum_t>::max()`: what `CheckOperandCount` compares with -/")
     for k in ("parmNumMax", "arrayParmNumMax"):
         L.append("def %s : Nat := %s" % (k, f[k]))
+    L.append("/-- width in bits of `ScriptEmitter::m_iVarStackOffset` (and of the maxima): `sizeof` in the built binary -/")
+    L.append("def stackBits : Nat := %s" % f["stackBits"])
     L.append("def opPrevious : Nat := %s" % f["opPrevious"])
     L.append("def opMax : Nat := %s" % f["opMax"])
     L.append("/-- `OpcodeInfo[].opcodelength` -/")
@@ -417,6 +423,12 @@ def family_cases(thorough):
     for kind in ("carr", "marr"):
         for n in ((2, 255, 256, 65534, 65535, 65536, 65537) if thorough else (2, 255, 256, 1000)):
             add("param-limit", g.fam_param_limit(kind, n))
+    # ring-wrap family (tools/vlib/ringwrap.py): peephole-sensitive statements at every index of the 100-entry
+    # previous-opcode ring; large literals / parameter lists of tools/vlib/bcgen.py
+    for _name, src in ringwrap.sources(quick=not thorough):
+        out.append(Case("family:ring-wrap", 0, src))
+    for name, src, _opts in bcgen.large_family(None if thorough else [2, 17, 257]) + bcgen.large_param_family(None if thorough else [6, 255, 256]):
+        out.append(Case("family:large", 0, src.encode()))
     for i, src in enumerate(g.fam_lexical()):
         add("lexical", src)
     ns = [1, 2, 50, 99, 100, 101] if thorough else [2, 99, 100, 101]
